@@ -178,4 +178,17 @@ CLAIMS = {
               "(O5). Trusted: documented instruction names; OpenQL's Program/Kernel API semantics. The cQASM text itself is not examined."),
         technique="static analysis: literal table vs. spec, ordered-effect (typestate) rules on kernel/program calls, case table of the walk, backward slice of names",
     ),
+    "C16": dict(
+        text=("Claimed in part. Decided statically: the three frequency-group comparisons are tabulated over all 9 group pairs against the strict "
+              "order LOW < MID < HIGH (trichotomy); the Surface-17 tables are evaluated from their literals (17 qubits each with a group, 24 "
+              "edges each joining two different groups, so the lower-frequency member of every gate is defined); on_moving_side is the "
+              "conjunction 'edge contains q and group(q) higher than group(partner)'; get_requires_parking has the skeleton spectator (over ALL "
+              "gates) and not participant and EXISTS involved neighbour (higher and moving), and get_requires_idle is its exact mirror (sibling "
+              "comparison after swapping the two primitives); the grouping enumeration records only complete partitions and removes exactly the "
+              "chosen combination; a grouping is kept iff every step passed get_mutually_allowed on all its gates, which tests every ordered pair."),
+        note=("NOT decided (out of reach for this family): the exhaustive statement 'accepted exactly when no qubit takes part in two gates and no two "
+              "neighbours share an operating level' over all subsets of up to four of the 24 edges -- that is enumeration / model checking of "
+              "get_forbidden_operations, not a shape-of-the-code fact. The rules above are necessary conditions of it. Trusted: itertools.combinations."),
+        technique="static analysis: truth tables over enum domains, literal table evaluation, sibling-mirror comparison of normal forms, loop summaries",
+    ),
 }
